@@ -172,6 +172,36 @@ let handle kind a =
       Some (cres_s (fun rs -> "Ok:" ^ String.concat "," (List.map (fun (site, sm) ->
               string_of_int (List.length site + List.length sm)) rs)) r
             ^ "|" ^ string_of_int (hexlen a.(0) - int_of_nat left))
+  | "csih" ->
+      (* data cap script chunk *)
+      let cap = nat_of_int (int_of_string a.(1)) in
+      let chunk = nat_of_int (int_of_string a.(3)) in
+      let (r, left) = run_csi_header cap chunk (mk a.(0) a.(2)) in
+      let fl sep l f = if l = [] then "_" else String.concat sep (List.map f l) in
+      let fo o f = match o with None -> "-" | Some x -> f x in
+      (match r with
+       | COk h ->
+           Some ("Ok:" ^ String.concat ":" [
+             (match h.h_format with FGeneric false -> "g" | FGeneric true -> "b" | FSam -> "s" | FVcf -> "v");
+             dec_of_n h.h_seq; dec_of_n h.h_beg; fo h.h_end dec_of_n; dec_of_n h.h_meta; dec_of_n h.h_skip;
+             fl "," h.h_names (fun nm -> if nm = [] then "." else hex_of_bytes nm) ]
+             ^ "|" ^ string_of_int (hexlen a.(0) - int_of_nat left))
+       | e -> Some (cres_s (fun _ -> "Ok") e))
+  | "hdrr" ->
+      (* fmt data cap script sizes *)
+      let prefix = n_of_int (if a.(0) = "sam" then 64 else 35) in
+      let cap = nat_of_int (int_of_string a.(2)) in
+      let (l, left) = run_hdr_reads prefix cap (parse_sizes a.(4)) (mk a.(1) a.(3)) in
+      Some (String.concat ";" (List.map (function ROk bs -> hex_of_bytes bs | RInt -> "Int") l)
+            ^ "|" ^ string_of_int (hexlen a.(1) - int_of_nat left))
+  | "hdre" ->
+      (* fmt data cap script chunk *)
+      let prefix = n_of_int (if a.(0) = "sam" then 64 else 35) in
+      let cap = nat_of_int (int_of_string a.(2)) in
+      let chunk = nat_of_int (int_of_string a.(4)) in
+      let (r, left) = run_hdr_read_to_end prefix cap chunk (mk a.(1) a.(3)) in
+      Some (cres_s (fun bs -> "Ok:" ^ hex_of_bytes bs) r
+            ^ "|" ^ string_of_int (hexlen a.(1) - int_of_nat left))
   | "cramc" ->
       (* data cap script chunk *)
       let cap = nat_of_int (int_of_string a.(1)) in
